@@ -281,15 +281,48 @@ func Each(c *Ctx, r *Result, stream string, n int, f func(i int, rng *rand.Rand)
 	}
 	var next int64 = -1
 	var wg sync.WaitGroup
+	// A case that does not come back (the engine spinning or blocked on an input) would otherwise hold the child
+	// until the parent's watchdog fires: name the case and give up early. This is "inconclusive", never a verdict.
+	limit := 180 * time.Second
+	if !c.Quick() {
+		limit = 900 * time.Second
+	}
+	started := make([]int64, w) // unix nanos of the running case per worker, 0 = idle
+	current := make([]int64, w)
+	stopMon := make(chan struct{})
+	defer close(stopMon)
+	go func() {
+		t := time.NewTicker(5 * time.Second)
+		defer t.Stop()
+		for {
+			select {
+			case <-stopMon:
+				return
+			case <-t.C:
+				now := time.Now().UnixNano()
+				for k := range started {
+					if s := atomic.LoadInt64(&started[k]); s != 0 && time.Duration(now-s) > limit {
+						fmt.Fprintf(os.Stderr, "CASE STUCK: %s/%s case %d (seed %d) has not returned for %v: the engine (or the harness) spins or blocks on this case; replay it with -replay on a case reference {\"stream\":%q,\"index\":%d}\n",
+							c.Prop, stream, atomic.LoadInt64(&current[k]), c.Seed, limit, stream, atomic.LoadInt64(&current[k]))
+						buf := make([]byte, 1<<20)
+						os.Stderr.Write(buf[:runtime.Stack(buf, true)])
+						os.Exit(5)
+					}
+				}
+			}
+		}
+	}()
 	for k := 0; k < w; k++ {
 		wg.Add(1)
-		go func() {
+		go func(k int) {
 			defer wg.Done()
 			for {
 				i := int(atomic.AddInt64(&next, 1))
 				if i >= n {
 					return
 				}
+				atomic.StoreInt64(&current[k], int64(i))
+				atomic.StoreInt64(&started[k], time.Now().UnixNano())
 				rng := c.Rand(stream, i)
 				if pi := Safe(func() { f(i, rng) }); pi != nil {
 					site := PanicSite(pi.Stack)
@@ -299,8 +332,9 @@ func Each(c *Ctx, r *Result, stream string, n int, f func(i int, rng *rand.Rand)
 					}
 					r.Violate(c.Prop+"/panic/"+site, "panic: "+pi.Val, map[string]interface{}{"stream": stream, "index": i, "stack": trimStack(pi.Stack)})
 				}
+				atomic.StoreInt64(&started[k], 0)
 			}
-		}()
+		}(k)
 	}
 	wg.Wait()
 }
